@@ -18,55 +18,16 @@ META = {
 }
 
 
-def build_cases(ctx, pairs):
-    cases = []
-    pinned = su.pinned_cases(ctx.thorough)
-    for name, c in pinned:
-        cases.append(c)
-    if ctx.thorough:
-        sel = pairs
-    else:
-        sel = verif.sample(ctx.rng, pairs, 240)
-    for k, p in enumerate(sel):
-        prof = "small"
-        big = None
-        r = ctx.rng.random()
-        if ctx.thorough and r < 0.06:
-            big = (ctx.rng.randrange(1, len(p["par"]) + 1), ctx.rng.choice(["chain", "chain", "fan"]), ctx.rng.choice([101, 130, 220, 300]))
-        elif r < (0.20 if ctx.thorough else 0.10):
-            big = (ctx.rng.randrange(1, len(p["par"]) + 1), ctx.rng.choice(["chain", "chain", "fan"]), ctx.rng.choice([30, 60, 101, 120]))
-        elif r < 0.4:
-            prof = "mixed"
-        cases.append(su.session_case(ctx.rng, p, prof, big_node=big))
-    return cases, len(pinned)
-
-
-def spec_runs(ctx):
-    """Design level.  quick: property level on shapes <= 3, implementation shaped on <= 4, pairs <= 4;
-    thorough: property level <= 4, implementation shaped <= 5 (both session styles), pairs <= 5."""
-    r = ctx.tlc("SyncAbs", "MC_SyncAbs.cfg" if ctx.thorough else "MC_SyncAbs_q.cfg", timeout=1500)
-    ctx.require_actions(r, ["ASample", "ARespond", "AEnd", "ACommit"])
-    ri = ctx.tlc("SyncAbs", "MC_SyncAbs_impl.cfg" if ctx.thorough else "MC_SyncAbs_impl_q.cfg", timeout=1500)
-    ctx.require_actions(ri, ["ISample", "IRespond", "IEnd", "ICommit"])
-    if ctx.thorough:
-        ctx.tlc("SyncAbs", "MC_SyncAbs_impl1.cfg", timeout=1500)
-    rp = ctx.tlc("SyncAbs", "MC_SyncAbs_pairs5.cfg" if ctx.thorough else "MC_SyncAbs_pairs4.cfg", timeout=1500, coverage=False)
-    pairs = rp.replays
-    if not pairs:
-        raise verif.ToolError("TLC emitted no pairs")
-    return pairs
-
-
 def run(ctx):
     vh = ctx.build("sync")
-    pairs = spec_runs(ctx)
+    pairs = su.spec_runs(ctx)
     if ctx.replay:
         case = json.load(open(ctx.replay))["case"]["input"]
         res, bad, _ = su.run_sessions(ctx, vh, [case], tag="replay")
         su.report(ctx, PROP, [case], res, bad)
         ctx.traces += 1
         return
-    cases, npinned = build_cases(ctx, pairs)
+    cases, npinned = su.build_cases(ctx, pairs)
     st = next(k for k, c in enumerate(cases) if c.get("pinned") == "straddle-2x60")
     res, bad, nlines = su.run_sessions(ctx, vh, cases, selftest_case=st)
     su.report(ctx, PROP, cases, res, bad)
